@@ -375,3 +375,7 @@ from vf.registry import alias  # noqa: E402
 
 alias("C03.metadata_bookkeeping_resolves_names_like_the_statement", "C09.metadata_rows_are_keyed_by_the_named_object", "an unqualified or schema-qualified table in a statement that records a comment / VARCHAR length denotes the object built from the session context")
 alias("C03.describe_and_show_use_the_session_context", "C09.describe_and_show_scope_literals")
+
+import obligations.C14  # noqa: E402,F401
+
+alias("C03.context_set_at_connect_is_this_connections_own", "C14.connect_ladder", "the database/schema given at connect become THIS connection's context - created when allowed, found when present in this database, regardless of same-named schemas in other databases or of other live sessions")
